@@ -6,7 +6,7 @@ cfgd = {k: int(v) for k, v in (kv.split("=") for kv in cfg.split(",") if kv)}
 full = "github.com/weedbox/pokertable" + ("/" + pkg if pkg not in (".", "root", "") else "")
 def run(h):
     out = "/tmp/runh_%s.json" % h
-    cmd = ["timeout", os.environ.get("T", "300"), "/verif/bin/symgo", "run", "-solver", "z3-new", "-pkg", full, "-harness", h, "-cfg", cfg, "-out", out]
+    cmd = ["timeout", os.environ.get("T", "300"), "/verif/bin/symgo", "run", "-solver", "z3-new", "-pkg", full, "-harness", h, "-cfg", cfg, "-out", out, "-repo", os.environ.get("REPO", "/repo")]
     r = subprocess.run(cmd, capture_output=True, text=True)
     s = subprocess.run(["python3", "/verif/show.py", out], capture_output=True, text=True).stdout if os.path.exists(out) else ""
     return h, r.stderr[-600:], s
